@@ -162,11 +162,39 @@ def d2(chk, prog, ploidies):
         got = [(r[0], str(r[4]).strip("<>")) for r in out]
         tb.cell(got == want, dict(case="second row has probes '-'", hap=hap, fem=fem, records=got, want=want))
     tb.done("export vcf does not emit exactly the non-neutral segments with the stated POS / END / SVTYPE / SVLEN / CN")
+    # export_vcf, interpreted with segments2vcf stubbed: its records under the ten VCF columns (the last one named after the sample), the flags passed on in their roles
     fv = prog.fn(f"{EXP}.export_vcf")
-    ok = any(isinstance(n, ast.Call) and norm(n.func) == "segments2vcf" and [norm(a) for a in n.args] == ["segments", "ploidy", "is_haploid_x_reference", "diploid_parx_genome", "is_sample_female"] for n in own_nodes(fv.node))
-    cols = [n for n in own_nodes(fv.node) if isinstance(n, ast.Assign) and norm(n.targets[0]) == "vcf_columns" and isinstance(n.value, ast.List)]
-    ok = ok and len(cols) == 1 and [norm(e) for e in cols[0].value.elts][:9] == ["'#CHROM'", "'POS'", "'ID'", "'REF'", "'ALT'", "'QUAL'", "'FILTER'", "'INFO'", "'FORMAT'"] and norm(cols[0].value.elts[9]) == "sample_id or segments.sample_id"
-    chk.decide(ok, "vcf-records", "export_vcf writes segments2vcf(...) under the standard VCF columns + the sample id", f"{fv.qn}::columns", fv.loc(), "export_vcf no longer maps the record tuple onto #CHROM POS ID REF ALT QUAL FILTER INFO FORMAT <sample>")
+    tbv = Table(chk, "vcf-records", "export_vcf: segments2vcf(...) records under #CHROM POS ID REF ALT QUAL FILTER INFO FORMAT <sample id given / the segments' own>; bin table given or not", fv.loc(), fv.qn + "::columns")
+    record = ("chr1", 1, ".", "N", "<DUP>", ".", ".", "IMPRECISE;SVTYPE=DUP", "GT:GQ:CN:CNQ", "0/1:0:3:5")
+    for sid, with_bins in itertools.product((None, "GIVEN"), (False, True)):
+        W.reset()
+        model = Model()
+        seen = {}
+        segs = make_ga("CopyNumArray", [dict(chromosome="chr1", start=0, end=10, gene="A", log2=Fr(1, 2), cn=3)], {"sample_id": "OWN"}, exact=True)
+        bins = make_ga("CopyNumArray", [dict(chromosome="chr1", start=0, end=10, gene="A", log2=Fr(1, 2))], {"sample_id": "OWN"}, exact=True)
+        with_ci = make_ga("CopyNumArray", [dict(chromosome="chr1", start=0, end=10, gene="A", log2=Fr(1, 2), cn=3)], {"sample_id": "OWN", "ci": True}, exact=True)
+        model.prims[f"{EXP}.segments2vcf"] = lambda it, *a, seen=seen, **k: (seen.setdefault("args", a), [record])[1]
+        model.prims[f"{EXP}.assign_ci_start_end"] = lambda it, s_, c_, seen=seen: (seen.setdefault("ci_args", (s_, c_)), with_ci)[1]
+
+        def hook(it, obj, name, args, kw, seen=seen):
+            if isinstance(obj, DF) and name == "to_csv":
+                seen["table"], seen["csv"] = obj, dict(kw)
+                return "BODY"
+            return NotImplemented
+        model.method_hooks.append(hook)
+        it = Interp(prog, model)
+        out = tbv.guard(lambda: it.run(fv.qn, [segs, 3, True, "grch38", False, sid, bins if with_bins else None]), f"sample_id={sid} bins={with_bins}")
+        if out is None:
+            continue
+        t = seen.get("table")
+        cols = [k for k in t.cols if not k.startswith("__")] if isinstance(t, DF) else None
+        want_cols = ["#CHROM", "POS", "ID", "REF", "ALT", "QUAL", "FILTER", "INFO", "FORMAT", sid or "OWN"]
+        a = seen.get("args") or ()
+        ok = cols == want_cols and [t.cols[c].v[0] for c in cols] == list(record) and isinstance(out, tuple) and len(out) == 2 and out[1] == "BODY" \
+            and len(a) == 5 and a[0] is (with_ci if with_bins else segs) and a[1:] == (3, True, "grch38", False) and seen.get("csv", {}).get("sep") == "\t" and seen.get("csv", {}).get("index") is False \
+            and (("ci_args" in seen and seen["ci_args"][0] is segs and seen["ci_args"][1] is bins) if with_bins else "ci_args" not in seen)
+        tbv.cell(ok, dict(sample_id=sid, bins_given=with_bins, columns=cols, want_columns=want_cols, segments2vcf_flags=[repr(x) for x in a[1:]], csv_options=seen.get("csv")))
+    tbv.done("export_vcf does not write the segments2vcf records under the standard VCF columns and the sample's id, or passes the ploidy / sex / PAR flags on in other roles")
 
 
 def d3(chk, prog):
@@ -264,6 +292,7 @@ def d4(chk, prog):
              ("same count, another gene", [("S1", bins, "x"), ("S2", [bins[0], ("chr1", 100, 200, "Z"), bins[2]], "y")], "ValueError"),
              ("same count, bins permuted", [("S1", bins, "x"), ("S2", [bins[1], bins[0], bins[2]], "y")], "ValueError"),
              ("duplicate sample id", [("S1", bins, "x"), ("S2", bins, "y"), ("S1", bins, "z")], "ValueError"),
+             ("duplicate sample id among the later files", [("S1", bins, "x"), ("S2", bins, "y"), ("S2", bins, "z")], "ValueError"),
              ("mismatch in the third file only", [("S1", bins, "x"), ("S2", bins, "y"), ("S3", bins[:1], "z")], "ValueError")]
     for label, samples, want_exc in cases:
         W.reset()
@@ -319,9 +348,22 @@ def d4(chk, prog):
                                                                       and same(r[4], vals["S1"][i]) and same(r[5], vals["S2"][i]) for i, r in enumerate(rows[2:]))
         tb3.cell(ok, dict(format=name, header=list(header), rows=[[repr(x) for x in r] for r in rows]))
     tb3.done("a matrix export row is not the bin's label followed by every sample's value")
+    # nexus-basic on a literal table: one row per bin, the bin's own chromosome / start / end / gene / log2 and its chr:start-end label (1-based start)
     fn = prog.fn(f"{EXP}.export_nexus_basic")
-    ok = any(isinstance(n, ast.Assign) and norm(n.targets[0]) == "out_table['probe']" and norm(n.value) == "cnarr.labels()" for n in own_nodes(fn.node))
-    chk.decide(ok, "must-pass-through", "nexus-basic: one row per bin with the bin's label", f"{fn.qn}::probe", fn.loc(), "nexus-basic must label each bin with cnarr.labels()")
+    W.reset()
+    g = make_ga("CopyNumArray", [dict(chromosome="chr1", start=0, end=10, gene="A", log2=Fr(1, 2), depth=3, weight=1), dict(chromosome="chr2", start=5, end=9, gene="B,C", log2=Fr(-1), depth=4, weight=1)],
+                {"sample_id": "S"}, index="any", exact=True, labels=[7, 3])
+    try:
+        out = Interp(prog).run(fn.qn, [g])
+    except Undecided as e:
+        raise AnalysisError(f"C20-D4 nexus-basic: {e}")
+    except Raised as e:
+        out = str(e)
+    c = out.cols if isinstance(out, DF) else {}
+    ok = [k for k in c if not k.startswith("__")] == ["chromosome", "start", "end", "gene", "log2", "probe"] and list(c["chromosome"].v) == ["chr1", "chr2"] and [int(T(x).cval()) for x in c["start"].v] == [0, 5] \
+        and [int(T(x).cval()) for x in c["end"].v] == [10, 9] and list(c["gene"].v) == ["A", "B,C"] and same(c["log2"].v[0], Fr(1, 2)) and same(c["log2"].v[1], Fr(-1)) and list(c["probe"].v) == ["chr1:1-10", "chr2:6-9"]
+    chk.decide(ok, "must-pass-through", "nexus-basic: one row per bin with the bin's own fields and its chr:start-end label", f"{fn.qn}::probe", fn.loc(),
+               f"nexus-basic rows are not (chromosome, start, end, gene, log2, label of that bin): {({k: [repr(x) for x in v.v] for k, v in c.items()} if c else out)}")
 
 
 def d5(chk, prog):
@@ -337,7 +379,10 @@ def d5(chk, prog):
 def run(chk):
     prog = chk.prog
     chk.trust("Python grammar via ast", "f-strings / str.join keep their holes in order (absint FStr)", "oracle: Appendix A table of reference / expected copies per class")
-    ploidies = [2, 3] if chk.tier == "quick" else [1, 2, 3, 4]
+    ploidies = [1, 2, 3] if chk.tier == "quick" else [1, 2, 3, 4, 5, 6]          # ploidy 1: half the ploidy is 0 copies on a haploid sex chromosome
+    chk.clause("PAR", "which bins count as PAR-X / PAR-Y: the filters on literal bins around every PAR boundary (C01-D2b rule)")
+    from . import C01
+    C01.par_key_label(chk, prog)
     d1(chk, prog, ploidies)
     d2(chk, prog, ploidies)
     d3(chk, prog)
